@@ -92,7 +92,7 @@ class Ctx:
             for k in sorted(gone):
                 tail2 = "::".join(k.split("::")[-2:])
                 tail1 = k.split("::")[-1]
-                if tail2 in text or ('"::%s"' % tail1) in text or ("::%s\"" % tail1) in text:
+                if tail2 in text or ('"::%s"' % tail1) in text:
                     out.append(tail2)
             return out
         except Exception:
